@@ -145,8 +145,14 @@ func balancerOps(rt *rapid.T, h http.Handler, rr *roundrobin.RoundRobin, adm bal
 	}
 }
 
-func metricsOps(rt *rapid.T, m *memmetrics.RTMetrics) op {
-	switch rapid.IntRange(0, 9).Draw(rt, "m-op") {
+func metricsOps(rt *rapid.T, m, peer *memmetrics.RTMetrics) op {
+	switch rapid.IntRange(0, 11).Draw(rt, "m-op") {
+	case 10:
+		// one set of metrics is folded into another while both go on recording
+		return func() { _ = m.Append(peer) }
+	case 11:
+		code := rapid.SampledFrom([]int{200, 502}).Draw(rt, "peer-code")
+		return func() { peer.Record(code, 3*time.Millisecond) }
 	case 0:
 		return func() { _ = m.TotalCount() }
 	case 1:
@@ -261,7 +267,14 @@ func buildTarget(rt *rapid.T) target {
 	case "rtmetrics":
 		m, err := memmetrics.NewRTMetrics()
 		must(err)
-		return target{name: kind, breaks: true, draw: func(rt *rapid.T) op { return metricsOps(rt, m) }}
+		peer, err := memmetrics.NewRTMetrics()
+		must(err)
+		return target{name: kind, breaks: true, draw: func(rt *rapid.T) op {
+			if rapid.IntRange(0, 4).Draw(rt, "on-peer") == 0 {
+				return metricsOps(rt, peer, m)
+			}
+			return metricsOps(rt, m, peer)
+		}}
 	case "ttlmap-count":
 		// The ttl map (the limiter's store; it has its own lock and is anchored in C09) used directly by concurrent
 		// callers. Each key starts as an entry whose ttl has run out but which nobody has collected yet: readers that
